@@ -170,6 +170,41 @@ pub fn run_c13(args: &[String]) {
                 let x = ctx.xor(roots[0], roots[1]);
                 roots.push(x);
             }
+        } else if (b - roots_all.len().div_ceil(bsz)) % 3 == 2 {
+            // array terms whose constant arrays have a reducible element (an ArrayConstant is not a leaf), queried both
+            // on their own and as operands of read / store / equality / if-then-else, in random order
+            let w = *[1u32, 2, 8, 65].choose(&mut rng).unwrap();
+            let iw = *[1u32, 2, 4].choose(&mut rng).unwrap();
+            let x = ctx.bv_symbol("x", w);
+            let y = ctx.bv_symbol("y", w);
+            let i = ctx.bv_symbol("i", iw);
+            let c = ctx.bv_symbol("c", 1);
+            let m = ctx.array_symbol("m", iw, w);
+            let mut reducible = |ctx: &mut Context, rng: &mut SmallRng, e: ExprRef| -> ExprRef {
+                match rng.random_range(0..6) {
+                    0 => { let o = ctx.ones(w); ctx.and(e, o) }
+                    1 => { let z = ctx.zero(w); ctx.or(e, z) }
+                    2 => { let n = ctx.not(e); ctx.not(n) }
+                    3 => { let z = ctx.zero(w); ctx.xor(z, e) }
+                    4 => { let t = ctx.get_true(); ctx.ite(t, e, y) }
+                    _ => { let n = ctx.not(e); let nn = ctx.not(n); let o = ctx.ones(w); ctx.and(o, nn) }
+                }
+            };
+            let r1 = reducible(&mut ctx, &mut rng, x);
+            let r2 = reducible(&mut ctx, &mut rng, y);
+            let k1 = ctx.array_const(r1, iw);
+            let k2 = ctx.array_const(r2, iw);
+            let kx = ctx.array_const(x, iw);
+            let rd = ctx.array_read(k1, i);
+            let st = ctx.array_store(k1, i, r2);
+            let eq = ctx.equal(k1, kx);
+            let it = ctx.ite(c, k1, k2);
+            let st2 = ctx.array_store(m, i, rd);
+            let rd2 = ctx.array_read(it, i);
+            let mut all = vec![k1, k2, rd, st, eq, it, st2, rd2, r1];
+            all.shuffle(&mut rng);
+            all.truncate(rng.random_range(4..=9));
+            roots.extend(all);
         } else {
             // random roots built over each other
             let base = random_root(&mut ctx, &mut rng, &cfg);
